@@ -100,6 +100,10 @@ func check(tb ev.TB, c wsim.Case) (*wsim.Result, []string) {
 				return res, nil
 			}
 		}
+		if bad, ok := res.OfferedBad[id]; ok {
+			fail("c01/offered-partitions", "message %v goes to topic %s: the balancer was offered a list that is not 0..n-1 (%s)", id, wantTopic, bad)
+			return res, nil
+		}
 		if n := res.OfferedN[id]; int(wantPart) >= n || wantPart < 0 {
 			fail("c01/balancer-domain", "balancer was offered %d partitions and answered %d", n, wantPart)
 			return res, nil
@@ -129,8 +133,8 @@ func check(tb ev.TB, c wsim.Case) (*wsim.Result, []string) {
 	// MaxAttempts is the documented limit on how many attempts are made to deliver a message: no message travels in more
 	// produce requests than that
 	for id, ps := range seenIn {
-		if len(ps) > c.MaxAttempts {
-			fail("c01/more-attempts-than-configured", "message %v was sent in %d produce requests (%s), MaxAttempts is %d", id, len(ps), describe(ps), c.MaxAttempts)
+		if len(ps) > c.Attempts() {
+			fail("c01/more-attempts-than-configured", "message %v was sent in %d produce requests (%s), MaxAttempts is %d (limit in force %d)", id, len(ps), describe(ps), c.MaxAttempts, c.Attempts())
 			return res, nil
 		}
 	}
